@@ -112,6 +112,24 @@ func init() {
 		arr.E[1] = ConstU(uint64(st.uuidSeq&0xff), 8)
 		return arr, true
 	}
+	// back-off: durations are irrelevant to the decisions in scope; NextBackOff returns an arbitrary non-negative duration
+	exact["github.com/cenkalti/backoff/v4.NewExponentialBackOff"] = func(e *Engine, st *State, fn *ssa.Function, args []Value, retTo *ssa.Call) (Value, bool) {
+		t := fn.Signature.Results().At(0).Type().Underlying().(*types.Pointer).Elem()
+		return Ptr{Obj: st.alloc(zero(t))}, true
+	}
+	exact["(*github.com/cenkalti/backoff/v4.ExponentialBackOff).NextBackOff"] = func(e *Engine, st *State, fn *ssa.Function, args []Value, retTo *ssa.Call) (Value, bool) {
+		d := st.fresh("backoff", BV(64))
+		st.assume(BVSge(d, ConstU(0, 64)))
+		return d, true
+	}
+	exact["(*github.com/cenkalti/backoff/v4.ExponentialBackOff).Reset"] = noop
+	exact["time.Sleep"] = noop
+	exact["runtime/debug.Stack"] = func(e *Engine, st *State, fn *ssa.Function, args []Value, retTo *ssa.Call) (Value, bool) {
+		return st.newByteSlice(mkString("<stack>").B), true
+	}
+	exact["(*regexp.Regexp).MatchString"] = func(e *Engine, st *State, fn *ssa.Function, args []Value, retTo *ssa.Call) (Value, bool) {
+		return True, true
+	}
 	// dialling a chain node: always fails in the model (no network); callers in scope propagate the error
 	dialFail := func(e *Engine, st *State, fn *ssa.Function, args []Value, retTo *ssa.Call) (Value, bool) {
 		return TupleV{Ptr{}, e.opaqueErr("dial: no network in the model")}, true
